@@ -149,7 +149,11 @@ class Engine(StmtMixin, LoopMixin, CallMixin, Expr2Mixin, ExprMixin, EngineBase)
             info['status'] = 'left-subset'
             info['error'] = f"{type(e).__name__}: {e}"
         except Exception as e:
-            info['status'] = 'checker-crash'
+            tb = traceback.extract_tb(e.__traceback__)
+            in_spec = bool(tb) and '/specs/' in tb[-1].filename
+            # an exception raised by contract text itself means the contract no longer fits the code
+            # (e.g. a library call it refers to vanished): the function left the verifiable subset
+            info['status'] = 'left-subset' if in_spec else 'checker-crash'
             info['error'] = traceback.format_exc()[-3000:]
         obs = self.obligations[n_before:]
         info['obligations'] = obs
